@@ -75,6 +75,41 @@ def add_heat_consumer_bridge(rng, spec):
     return spec
 
 
+def add_oos_supplies(rng, spec):
+    """out-of-service pressure supplies next to the in-service ones: a second circulation pump (heat loops) and / or
+    an external grid that is switched off, placed before or after the live one in the table"""
+    ops = spec["ops"]
+    js = _junction_labels(spec)
+    tj = _template_junction(spec)
+    for fn in ("create_circ_pump_const_pressure", "create_circ_pump_const_mass_flow"):
+        live = [i for i, (f, kw) in enumerate(ops) if f == fn]
+        if live:
+            kw = dict(ops[live[0]][1])
+            kw["index"] = _new_label(spec, fn)
+            kw["in_service"] = False
+            before = [k["index"] for f, k in ops[:live[0]] if f == "create_junction"]
+            if rng.random() < 0.5 and len(before) >= 4:
+                a, c = rng.sample(before, 2)
+                kw["return_junction"], kw["flow_junction"] = a, c
+            ops.insert(live[0] if rng.random() < 0.5 else live[0] + 1, [fn, kw])
+    if "heat_modes" in spec and rng.random() < 0.5:
+        other = "create_circ_pump_const_mass_flow" if any(f == "create_circ_pump_const_pressure" for f, _ in ops) \
+            else "create_circ_pump_const_pressure"
+        a, c = rng.sample(js, 2)
+        kw = {"index": 0, "return_junction": a, "flow_junction": c, "p_flow_bar": tj["pn_bar"], "t_flow_k": 350.0,
+              "in_service": False}
+        kw.update({"mdot_flow_kg_per_s": 1.0} if other.endswith("mass_flow") else {"plift_bar": 1.0})
+        ops.append([other, kw])
+    eg = [i for i, (f, kw) in enumerate(ops) if f == "create_ext_grid"]
+    if rng.random() < 0.7:
+        pos = eg[0] if eg and rng.random() < 0.5 else len(ops)
+        before = [k["index"] for f, k in ops[:pos] if f == "create_junction"]
+        kw = {"index": _new_label(spec, "create_ext_grid"), "junction": rng.choice(before), "p_bar": tj["pn_bar"],
+              "t_k": tj["tfluid_k"], "in_service": False}
+        ops.insert(pos, ["create_ext_grid", kw])
+    return spec
+
+
 SOLE_LINK_KINDS = ("pipe", "valve", "pump", "compressor", "heat_exchanger", "flow_control_passive",
                    "flow_control_active", "heat_consumer", "press_control")
 
@@ -546,6 +581,8 @@ def monitors(ctx, widen=False):
             add_heat_consumer_bridge(rng, spec)
         if prof != "heat" and rng.random() < 0.5:
             add_sole_link(rng, spec)
+        if prof == "heat" or rng.random() < 0.5:
+            add_oos_supplies(rng, spec)
         try:
             one_monitor_case(ctx, rng, spec)
             if i % 4 == 0:
@@ -577,6 +614,11 @@ def one_monitor_case(ctx, rng, spec, changed=None):
         kw["iter"] = 100
     st, msg = drive.run(net, **kw)
     ctx.count("monitor_run_" + st)
+    if st not in ("ok", "PipeflowNotConverged") and not (st == "UserWarning" and "controlled junction" in msg):
+        # a valid net (every reference resolves, flags are booleans) may fail to converge; nothing else may be raised
+        ctx.violation({"monitor": "exception", "exception": st},
+                      "pipeflow on a valid net raises %s: %s" % (st, msg[:160]),
+                      {"kind": "nan_pattern", "net": spec, "changed": changed, "options": kw})
     if st != "ok":
         ctx.case({"monitor": "supplied_part", "net": spec, "changed": changed, "outcome": st}, False)
         return st
